@@ -189,6 +189,7 @@ class Rec:
         self.main_exc = None if exc is None else repr(exc)[:200]
         self.any_exc = next((repr(t.exc)[:200] for t in w.tasks if t.exc is not None), None)
         self.alive_procs = sum(1 for t in w.tasks if t.name.startswith("P") and not t.done)
+        self.shared = sorted(getattr(w, "shared_names", None) or [])      # the instrumented attributes: part of what a schedule means
 
 
 def summarize(w):
@@ -318,7 +319,7 @@ def judge_worlds(worlds, scens, ctx, name, pid_sig=None):
                     "(outcome %s%s%s)" % (name, json.dumps(scen, sort_keys=True), len(w.schedule), matched, json.dumps(ev), w.outcome,
                                           ", blocked " + json.dumps(getattr(w, "blocked", None)) if w.outcome == "deadlock" else "",
                                           ", consumer raised %s" % (main_exc,) if main_exc is not None else ""))
-            ctx.violation(sig, desc, {"engine": "simworld", "scenario": scen, "schedule": w.schedule,
+            ctx.violation(sig, desc, {"engine": "simworld", "scenario": scen, "schedule": w.schedule, "shared": getattr(w, "shared", []),
                                       "events": [t["op"] for t in tr][:200], "rejected_at": matched})
     return bad
 
@@ -394,3 +395,19 @@ def explore_all(h, scens, seed, budget, ctx, procs=None, **kw):
         ws += [s] * len(rs)
         ctx.extra.setdefault("exploration", []).extend(info)
     return recs, ws
+
+
+def replay_witness(ctx, witness, harness_factory=None, name=None):
+    """--replay: the recorded scenario under the recorded schedule, judged again. True = rejected again, False = accepted now,
+    None = this witness cannot be re-executed here."""
+    scen, schedule = witness.get("scenario"), witness.get("schedule")
+    if not scen or schedule is None or scen.get("pool") not in ("functor", "factory", "functormap", "mulpmap"):
+        return None
+    h = (harness_factory or Harness)()
+    if hasattr(h, "learn"):
+        h.shared = set(witness["shared"]) if witness.get("shared") else h.learn(scen, random.Random(1))
+    # a recorded schedule starts with the initial run of "main", which is not a choice of the scheduler
+    w = h.execute(scen, S.scripted_chooser(schedule[1:] if schedule[:1] == ["main"] else schedule))
+    before = len(ctx.violations)
+    judge_worlds([w], [scen], ctx, name or ctx.pid)
+    return len(ctx.violations) > before
